@@ -1256,6 +1256,48 @@ impl WorldGen {
         self.w.exec(Some(1), &u, vec![Coin::new(5000u128, D)], "stake - - -");
     }
 
+    /// A re-basing resume that leaves the liquid total below the pending batch while the staked total stays above it,
+    /// then SubmitBatch once the batch is due: the code must refuse (InvalidUnstakeAmount) rather than set aside more
+    /// than it deducts from the staked total (seeded change C01-7).
+    pub fn scripted_rebase_below_pending(&mut self) {
+        let admin = self.s.admin.clone();
+        let u = self.s.users[0].clone();
+        let lst = self.s.lst();
+        let min = self.s.min.max(1000);
+        self.w.faucet(&u, D, 1_000_000 + min);
+        self.w.tick(1_000_000_000);
+        self.w.exec(Some(1), &u, vec![Coin::new(100_000u128 + min, D)], "stake - - -");
+        let flying: Vec<u64> = self.w.chain.packets.values().filter(|p| p.state == crate::world::PState::Flight).map(|p| p.seq).collect();
+        for q in flying {
+            self.w.relay(q, "ok");
+        }
+        let have = self.w.chain.bal(&u, &lst);
+        if have < 10 {
+            return;
+        }
+        self.w.tick(1_000_000_000);
+        if !self.w.exec(Some(2), &u, vec![Coin::new(have * 3 / 5, lst.clone())], "unstake") {
+            return;
+        }
+        let v = view(&self.w.sim);
+        let Some(pb) = v.batches.iter().find(|x| x.id == v.pending).cloned() else { return };
+        let bt = pb.batch_total_liquid_stake.u128();
+        let n = v.st.total_native_token.u128();
+        if bt < 2 || n < bt {
+            return;
+        }
+        let l = if self.r.chance(50) { bt - 1 } else { bt / 2 };
+        self.w.tick(1_000_000_000);
+        self.w.exec(None, &admin, vec![], "breaker");
+        self.w.exec(Some(0), &admin, vec![], &format!("resume {} {} {}", n, l, v.st.total_reward_amount.u128()));
+        let now_s = self.w.now_ns / 1_000_000_000;
+        let due = pb.next_batch_action_time.unwrap_or(now_s);
+        if due > now_s {
+            self.w.tick((due - now_s + 1) * 1_000_000_000);
+        }
+        self.w.exec(Some(3), &u, vec![], "submit");
+    }
+
     /// Several refunded transfers toward one receiver, then admin-forced recoveries naming one of them twice with
     /// another in between, at the end, and next to itself; then an honest forced recovery of what is left.
     pub fn scripted_forced_duplicates(&mut self) {
